@@ -142,6 +142,11 @@ def c20(tier, rng):
             for pr in probes_fn:
                 lines = [pool[i] for i in seq] + [pr]
                 cli.append(CliCase('session', [], {}, ('\n'.join(lines) + '\n').encode(), None, note=(len(lines), pr)))
+    # sessions whose LAST line is each kind of line (the status at end of input is 0 whatever the last line did)
+    for i, ln in enumerate(pool[:-1]):
+        cli.append(CliCase('session-ends-with', [], {}, (ln + '\n').encode(), None))
+        cli.append(CliCase('session-ends-with', [], {}, ('1 + 1;\n' + ln).encode(), None))
+        cli.append(CliCase('session-ends-with', [], {}, (pool[(i * 7) % (len(pool) - 1)] + '\n' + ln + '\n').encode(), None))
     cli.append(CliCase('session', [], {}, (pool[-1] + '\n1 + 1;\n').encode(), None, note=(2, '1 + 1;')))
     cli.append(CliCase('session-no-final-newline', [], {}, b'1 + 1;\n2 + 2;', None))
     cli.append(CliCase('session-empty', [], {}, b'', None))
@@ -167,7 +172,7 @@ def c20(tier, rng):
     for pr in probes + probes_fn + ['1 + 1;']:
         cli.append(CliCase('fresh-probe', [], {}, (pr + '\n').encode(), None, note=pr))
     rule = (f'every session of <= {min(L, 2)} lines (thorough: also every triple over a third of the pool) over a pool of {len(pool) - 1} representative lines (statements, bare expressions of every kind, lexical / syntax / runtime errors incl. out-of-range literals in both scripts and an open comment, lines that look like commands of a shell or another REPL (exit, quit, :q, help, a trailing backslash, a shebang), assignments to built-in names, stray signals, blank and comment lines) '
-            f'followed by a probe line that uses only literals and built-ins (and by three probes that define and call a function ending in a bare return, no return, a loop exit); {m} random sessions of 4..28 lines; {len(hist)} long histories of failure (thousands of failing lines, lines failing up to {100000 if tier == "thorough" else 40000} calls deep; implementation alone) before each probe; a 70 000-character line; missing final newline, CRLF, empty input. Compared with the model (stdout split at the prompts, stderr, status 0); '
+            f'followed by a probe line that uses only literals and built-ins, and sessions that END with each line of the pool (with and without a final newline) (and by three probes that define and call a function ending in a bare return, no return, a loop exit); {m} random sessions of 4..28 lines; {len(hist)} long histories of failure (thousands of failing lines, lines failing up to {100000 if tier == "thorough" else 40000} calls deep; implementation alone) before each probe; a 70 000-character line; missing final newline, CRLF, empty input. Compared with the model (stdout split at the prompts, stderr, status 0); '
             'on the implementation alone: the probe answers exactly as in a fresh session. Non-trivial = every session.')
     return {'cli': cli, 'cases': [], 'rule': rule, 'exhaustive': True, 'cli_oracles': [cli_oracle_c20], 'cli_timeout': 20}
 
